@@ -161,6 +161,7 @@ let parse_op (line : string) : op =
   | ["setmaxheight"; n] -> OpSetMaxHeight (zi n)
   | ["dropnode"; h] -> OpDropNode (ni h)
   | ["dropvar"; x] -> OpDropVar (ni x)
+  | ["dropexports"] -> OpDropExports
   | ["crashat"; k] -> OpCrashAt (ni k)
   | _ -> fail ("op: " ^ line)
 
